@@ -252,6 +252,59 @@ broadcast proof fn lemma_own_marked_mono(v: Seq<InsertEntity>, n: int, a: DailyM
             // [local_write_keeps_marks]
             marks_superset(*old(daily_log), *final(daily_log)),
 //@ end
+// ================================================================= a mutation that also changes room definitions (RoomMutationWrite / RoomMutationStreamWrite)
+pub struct MutationParser { x: u8 }
+//@ extract src/database/mutation_query.rs :: struct MutationQuery
+//@ rewrite E3 "Arc<MutationParser>" => "Box<MutationParser>" x1
+//@ end
+pub struct ReplyTo { x: u8 }
+pub struct RoomMutationWriteQuery { pub room_list: HashSet<Uid>, pub mutation_query: MutationQuery, pub reply: ReplyTo }
+pub struct RoomMutationStreamWriteQuery { pub room_list: HashSet<Uid>, pub mutation_query: MutationQuery, pub reply: ReplyTo }
+/// every top-level entity of the mutation that is not one of the room definitions the query changes has its buckets, and those of
+/// everything nested under it, marked
+pub open spec fn ordinary_entities_marked(v: Seq<InsertEntity>, n: int, rooms: Set<Uid>, dm: DailyMutations) -> bool {
+    forall|j: int| 0 <= j < n && !rooms.contains((#[trigger] v[j]).node_to_mutate.id) ==> own_marked(v[j], dm) && subs_marked(v[j].sub_nodes@, dm)
+}
+proof fn lemma_ordinary_marked_mono(v: Seq<InsertEntity>, n: int, rooms: Set<Uid>, a: DailyMutations, b: DailyMutations)
+    requires ordinary_entities_marked(v, n, rooms, a), marks_superset(a, b),
+    ensures ordinary_entities_marked(v, n, rooms, b),
+{
+    assert forall|j: int| 0 <= j < n && !rooms.contains((#[trigger] v[j]).node_to_mutate.id) implies own_marked(v[j], b) && subs_marked(v[j].sub_nodes@, b) by {
+        lemma_subs_marked_mono(v[j].sub_nodes@, a, b);
+    }
+}
+//@ extract src/database/authorisation_service.rs :: impl RoomMutationWriteQuery / fn update_daily_logs
+//@ attr #[verifier::loop_isolation(false)]
+//@ insert before-stmt "insert.update_daily_logs(daily_log);"
+                let ghost dm_before = *daily_log;
+//@ insert after-stmt "insert.update_daily_logs(daily_log);"
+                proof { lemma_ordinary_marked_mono(self.mutation_query.mutate_entities@, it.index@ as int, self.room_list@, dm_before, *daily_log); }
+//@ loop "for insert in &self.mutation_query.mutate_entities" iter it
+            invariant marks_superset(*old(daily_log), *daily_log),
+                // [ordinary_rows_of_a_room_mutation_marked_so_far]{C09,C03,C13}
+                ordinary_entities_marked(self.mutation_query.mutate_entities@, it.index@ as int, self.room_list@, *daily_log),
+//@ spec
+        ensures
+            // [ordinary_rows_written_with_a_room_change_are_marked]{C09,C03,C13} a mutation that changes room definitions AND writes ordinary rows marks the buckets of every ordinary row (and of everything nested under it): only the entities that ARE the changed room definitions - recognised by their own id - are left to the room changelog; a row written INTO such a room is an ordinary row
+            ordinary_entities_marked(self.mutation_query.mutate_entities@, self.mutation_query.mutate_entities@.len() as int, self.room_list@, *final(daily_log)),
+            marks_superset(*old(daily_log), *final(daily_log)),
+//@ end
+//@ extract src/database/authorisation_service.rs :: impl RoomMutationStreamWriteQuery / fn update_daily_logs
+//@ attr #[verifier::loop_isolation(false)]
+//@ insert before-stmt "insert.update_daily_logs(daily_log);"
+                let ghost dm_before = *daily_log;
+//@ insert after-stmt "insert.update_daily_logs(daily_log);"
+                proof { lemma_ordinary_marked_mono(self.mutation_query.mutate_entities@, it.index@ as int, self.room_list@, dm_before, *daily_log); }
+//@ loop "for insert in &self.mutation_query.mutate_entities" iter it
+            invariant marks_superset(*old(daily_log), *daily_log),
+                // [ordinary_rows_of_a_streamed_room_mutation_marked_so_far]{C09,C03,C13}
+                ordinary_entities_marked(self.mutation_query.mutate_entities@, it.index@ as int, self.room_list@, *daily_log),
+//@ spec
+        ensures
+            // [ordinary_rows_written_with_a_streamed_room_change_are_marked]{C09,C03,C13} the same for a mutation of a mutation stream: the two sites agree
+            ordinary_entities_marked(self.mutation_query.mutate_entities@, self.mutation_query.mutate_entities@.len() as int, self.room_list@, *final(daily_log)),
+            marks_superset(*old(daily_log), *final(daily_log)),
+//@ end
 // ================================================================= tombstones received from a peer (delete_all)
 pub mod rusqlite { pub struct Error { x: u8 } }
 pub uninterp spec fn stmt_executed<P>(p: P) -> bool;
